@@ -23,7 +23,7 @@ let c14_table : (string * (Z.t list -> Z.t list option)) list = Model.[
 
 let c01_table : (string * (Z.t list -> Z.t list option)) list = Model.[ "prog", run_prog; "plonkverify", run_plonkverify; "challenges", run_challenges ]
 
-let c16_table : (string * (Z.t list -> Z.t list option)) list = Model.[ "dedup", run_dedup ]
+let c16_table : (string * (Z.t list -> Z.t list option)) list = Model.[ "dedup", run_dedup; "fricompress", run_fricompress; "fridecompress", run_fridecompress; "friinferred", run_friinferred ]
 
 let c12_table : (string * (Z.t list -> Z.t list option)) list = Model.[
   "cap", run_cap; "prove", run_prove; "proveall", run_proveall; "verify", run_verify;
